@@ -253,6 +253,13 @@ class Plot:
                 lv["files"], lv["order"] = assign_layout(spec["layout_override"], len(lv["boxes"]), l)
         self.nlev = len(self.levels)
         self.n0 = [n * ms["bf"] for n in ms["nb0"]]
+        # optional shift of the whole index space (AMReX allows domains whose low index is not 0, e.g. centred on the
+        # origin); given in level-0 blocks.  Only the byte-level reader checks use it: the tools' metadata assume 0.
+        self.shift0 = [int(x) * ms["bf"] for x in spec.get("index_shift", [0] * nd)]
+        if any(self.shift0):
+            for l, lv in enumerate(self.levels):
+                lv["boxes"] = [([lo[d] + self.shift0[d] * 2 ** l for d in range(nd)], [hi[d] + self.shift0[d] * 2 ** l for d in range(nd)])
+                               for lo, hi in lv["boxes"]]
         g = spec["geom"]
         self.geo_lo = [float(x) for x in g["origin"]]
         if g.get("iso"):
@@ -277,7 +284,8 @@ class Plot:
 
     def phys_box(self, l, b):
         lo, hi = self.levels[l]["boxes"][b]
-        return [[self.geo_lo[d] + lo[d] * self.dx[l][d], self.geo_lo[d] + (hi[d] + 1) * self.dx[l][d]]
+        sh = [x * 2 ** l for x in self.shift0]
+        return [[self.geo_lo[d] + (lo[d] - sh[d]) * self.dx[l][d], self.geo_lo[d] + (hi[d] + 1 - sh[d]) * self.dx[l][d]]
                 for d in range(self.ndims)]
 
     def centres(self, l, d):
@@ -405,7 +413,7 @@ def _payload_coded(plot, l, lo, hi):
 
 
 def _box_rng(plot, l, lo):
-    seed = [int(plot.payload.get("seed", 0)), l] + [int(x) for x in lo]
+    seed = [int(plot.payload.get("seed", 0)), l] + [int(x) & 0xFFFFFFFF for x in lo]
     return np.random.Generator(np.random.PCG64(seed))
 
 
@@ -481,8 +489,11 @@ def write(plot, path):
         h.write(" ".join(fmt(x) for x in plot.geo_lo) + tb + "\n")
         h.write(" ".join(fmt(x) for x in plot.geo_hi) + tb + "\n")
         h.write(" ".join("2" for _ in range(L + plot.extra_factors)) + tb + "\n")
-        h.write(" ".join(f"(({z}) ({','.join(str(n - 1) for n in plot.grid_size(l))}) ({z}))"
-                         for l in range(L + 1)) + tb + "\n")
+        dom = []
+        for l in range(L + 1):
+            sh = [x * 2 ** l for x in plot.shift0]
+            dom.append(f"(({','.join(str(x) for x in sh)}) ({','.join(str(n - 1 + x) for n, x in zip(plot.grid_size(l), sh))}) ({z}))")
+        h.write(" ".join(dom) + tb + "\n")
         h.write(" ".join(str(plot.step) for _ in range(L + 1)) + tb + "\n")
         for l in range(L + 1):
             h.write(" ".join(fmt(x) for x in plot.dx[l]) + tb + "\n")
